@@ -119,5 +119,3 @@ func cmdVerify(args []string) {
 	}
 }
 
-func cmdCheck(args []string)  {}
-func cmdRelock(args []string) {}
